@@ -63,6 +63,7 @@ def run(ctx: Context) -> None:
     v = CalibrateView(ctx.prog)
     ctx.rule(c14.r4_checkpoint_on_every_exit, v, "R6")
     ctx.rule(r7_restore_order, pl)
+    ctx.rule(r8_restore_is_read_only, pl)
 
 
 def _self_path(e: ast.expr, self_name: str | None) -> str | None:
@@ -220,7 +221,7 @@ def r2_tables(ctx: Context, pl: Plumbing) -> None:
     # every file is (re)written on every path through save
     g = CFG(pl.save.node)
     for file in sorted(files_w):
-        nodes = {n for e in effects if e.file == file for n in node_for(g, getattr(e, "node_in_save", e.node))}
+        nodes = {n for e in effects if e.file == file and getattr(e, "always", True) for n in node_for(g, getattr(e, "node_in_save", e.node))}
         p = g.path_avoiding(g.entry, {g.exit}, nodes)
         ctx.check(p is None, "R2.every-file", f"save_calibrator_state:writes:{file}", f"{file} is written on every path through save",
                   f"save_calibrator_state can return without writing {file} (the folder then mixes two checkpoints)", pl.save, pl.save.node, path_text(pl.save, p))
@@ -526,3 +527,41 @@ def r7_restore_order(ctx: Context, pl: Plumbing) -> None:
     for s in pl.restore_stores:
         recv = dotted(s.targets[0]).split(".")[0]  # type: ignore[union-attr]
         ctx.check(recv == tgt, "R7.order", f"restore_from_checkpoint:receiver:{src(s.targets[0])}", "overwrites go to the restored object", f"`{src(s)[:60]}` writes another object", pl.restore, s)  # type: ignore[attr-defined]
+
+
+DESTRUCTIVE_CALLS = {"unlink", "rmdir", "rmtree", "remove", "removedirs", "rename", "replace", "write_text", "write_bytes", "truncate", "to_csv", "create_dataset", "dump", "touch"}
+
+
+def r8_restore_is_read_only(ctx: Context, pl: Plumbing) -> None:
+    """Restoring (load + constructor + everything they call in the calibrator) must not modify the checkpoint folder."""
+    prog = ctx.prog
+    cal = prog.find_class("Calibrator")
+    reach: list[FuncInfo] = []
+    work = [pl.restore, pl.load, pl.init]
+    while work:
+        f = work.pop()
+        if f in reach:
+            continue
+        reach.append(f)
+        for c in calls_in(f.node, scope_only=False):
+            for t in prog.resolve_call(f, c):
+                if isinstance(t, FuncInfo) and t not in reach and (t.cls is cal or t.module is pl.load.module or (t.cls is None and t.module is pl.restore.module)) and t.name not in ("create_checkpoint", "calibrate"):
+                    work.append(t)
+    n = 0
+    for f in reach:
+        ctx.analysed(f)
+        for c in calls_in(f.node, scope_only=False):
+            n += 1
+            name = c.func.attr if isinstance(c.func, ast.Attribute) else (dotted(c.func) or "")
+            q = prog.qualify(f.module, dotted(c.func) or "") if dotted(c.func) else ""
+            bad = name in DESTRUCTIVE_CALLS and not q.startswith(("json.", "pickle.")) or q in ("os.remove", "os.unlink", "shutil.rmtree", "os.rename", "os.replace", "shutil.move")
+            if name == "dump" and q in ("json.dump", "pickle.dump"):
+                bad = True
+            if name == "open" or q in ("h5py.File", "open"):
+                mode = kwarg(c, "mode", 0 if name == "open" and isinstance(c.func, ast.Attribute) else 1)
+                if isinstance(mode, ast.Constant) and isinstance(mode.value, str) and any(ch in mode.value for ch in "wax+"):
+                    bad = True
+            if bad:
+                ctx.fail("R8.restore-read-only", f"{f.qualname.split(':')[1]}:{name}", f"`{' '.join(src(c).split())[:80]}` is reachable from restore_from_checkpoint (through {f.qualname.split(':')[1]}): restoring a checkpoint "
+                         "modifies or deletes files of the folder it restores from, so the folder no longer holds the saved state", f, c)
+    ctx.ok("R8.restore-read-only", "restore:reachable", f"{len(reach)} functions / {n} call sites reachable from restore_from_checkpoint scanned for file writes and deletions")
